@@ -1,25 +1,39 @@
 (* Finite facts about the schema table generated from the live classes (gen/PdPaths.v), re-proved on every run. *)
 From Coq Require Import List Bool String.
-From PV Require Import Typed.PdSpec.
+From PV Require Import Typed.PdSpec Typed.PdFull.
 From PVGen Require PdPaths GenericTables.
 Import ListNotations.
 Local Open Scope string_scope.
 
-(* the document-typed paths of the live schema are exactly the ones this development knows about *)
-Lemma pd_table_is_spec : PdPaths.PD_TABLE = map to_generated SPEC_TABLE.
-Proof. vm_compute. reflexivity. Qed.
+(* the document-typed paths of the live schema: every generated row is a row of FULL_TABLE (the hand-written rows of the 18 known
+   classes + a walking row per new class), every hand-written row is still generated unchanged (no known class lost or changed a
+   document-typed path or its accessor override), and a NEW class does not override the accessor *)
+Lemma pd_table_is_spec :
+  forallb (fun row => existsb (row_eqb row) (map to_generated FULL_TABLE)) PdPaths.PD_TABLE = true /\
+  forallb (fun r => existsb (row_eqb (to_generated r)) PdPaths.PD_TABLE) SPEC_TABLE = true /\
+  forallb (fun row => negb (fst (snd row))) EXTRA_ROWS = true.
+Proof. split; [|split]; vm_compute; reflexivity. Qed.
 
-Lemma spec_table_covered : forallb covered SPEC_TABLE = true.
+Lemma spec_table_covered : forallb covered FULL_TABLE = true.
 Proof. vm_compute. reflexivity. Qed.
 
 Theorem typed_paths :
   forall t ov paths, In (t, (ov, paths)) PdPaths.PD_TABLE ->
-  exists r, In r SPEC_TABLE /\ c_type r = t /\ c_paths r = paths /\ ov = is_override (c_acc r) /\
+  exists r, In r FULL_TABLE /\ c_type r = t /\ c_paths r = paths /\ ov = is_override (c_acc r) /\
             forallb (path_covered r) paths = true.
 Proof.
-  intros t ov paths H. rewrite pd_table_is_spec in H. apply in_map_iff in H. destruct H as (r & E & Hr).
+  intros t ov paths H. destruct pd_table_is_spec as [F _]. rewrite forallb_forall in F. specialize (F _ H).
+  apply existsb_exists in F. destruct F as (g & Hg & E). apply row_eqb_eq in E. subst g.
+  apply in_map_iff in Hg. destruct Hg as (r & E & Hr).
   exists r. unfold to_generated in E. inversion E; subst. repeat split; auto.
   pose proof spec_table_covered as C. rewrite forallb_forall in C. apply (C r Hr).
+Qed.
+
+(* the known classes are all still there, with the paths and the override flag this development was written against *)
+Theorem known_rows_unchanged : forall r, In r SPEC_TABLE -> In (to_generated r) PdPaths.PD_TABLE.
+Proof.
+  intros r Hr. destruct pd_table_is_spec as (_ & F & _). rewrite forallb_forall in F. specialize (F _ Hr).
+  apply existsb_exists in F. destruct F as (g & Hg & E). apply row_eqb_eq in E. subst g. exact Hg.
 Qed.
 
 (* generic.AuxType: the alternatives and their order (the guards are pinned by Typed/AuxCheck.v for C18);
